@@ -124,29 +124,22 @@ func (in *Interp) tryMerge(fr *frame, b *ssa.BasicBlock, c *Term) (merged bool, 
 	region := map[*ssa.BasicBlock]bool{b: true}
 	nBlocks := 0
 	var rets []mergeRet
-	saved := map[ssa.Value]Value{}
-	var savedMissing []ssa.Value
+	type savedVal struct {
+		i   int
+		old Value
+	}
+	var saved []savedVal
 	setEnv := func(k ssa.Value, v Value) {
-		if old, ok := fr.env[k]; ok {
-			if _, done := saved[k]; !done {
-				saved[k] = old
-			}
-		} else {
-			savedMissing = append(savedMissing, k)
-		}
-		fr.env[k] = v
+		i := fr.fi.idx[k]
+		saved = append(saved, savedVal{i, fr.env[i]})
+		fr.env[i] = v
 	}
 	defer func() {
 		in.mergeGuard = outer
 		if r := recover(); r != nil {
 			if ma, ok := r.(mergeAbort); ok {
-				for k, v := range saved {
-					fr.env[k] = v
-				}
-				for _, k := range savedMissing {
-					if _, was := saved[k]; !was {
-						delete(fr.env, k)
-					}
+				for j := len(saved) - 1; j >= 0; j-- {
+					fr.env[saved[j].i] = saved[j].old
 				}
 				in.stats.MergeAborts++
 				in.ev("  abort %s b%d: %s static=%v", fr.fn.Name(), b.Index, ma.why, ma.static)
@@ -299,14 +292,11 @@ func (in *Interp) tryMerge(fr *frame, b *ssa.BasicBlock, c *Term) (merged bool, 
 // without leaving it in the frame (the caller records it for undo).
 func (in *Interp) evalInstrValue(fr *frame, instr ssa.Instruction) Value {
 	v := instr.(ssa.Value)
-	old, had := fr.env[v]
+	i := fr.fi.idx[v]
+	old := fr.env[i]
 	in.visitInstr(fr, instr)
-	val := fr.env[v]
-	if had {
-		fr.env[v] = old
-	} else {
-		delete(fr.env, v)
-	}
+	val := fr.env[i]
+	fr.env[i] = old
 	return val
 }
 
@@ -349,7 +339,7 @@ func (in *Interp) joinAt(fr *frame, x *ssa.BasicBlock, edges []mergeEdge) {
 		vals = append(vals, in.phiMerge(fr, x, phi, edges))
 	}
 	for i, phi := range phis {
-		fr.env[phi] = vals[i]
+		fr.env[fr.fi.idx[phi]] = vals[i]
 	}
 	fr.prevBlock = edges[0].from
 	fr.block = x
